@@ -43,6 +43,7 @@ struct Config {
     int nt = -1, t = -1, minR = 0, maxR = 99, maxW = 99, maxL = 99, minW = 0;
     int err = 0;                 // 0: frames without error positions, 1: frames with, 2: both
     int custom = 0;              // 1: frames with the scripted custom lexer
+    int long_words = 0;          // > 0: every grammar also gets the inputs a^K b, a^K and b a^K b for all terminals a, b (long discard runs, long traces)
     int off = -1, noff = -1;     // lifted frames: select by number of filler terminals / nonterminals (-1: any)
     double deadline = 1e18;
     std::string one_spec, one_prec, one_rprec, one_input; bool one = false, has_input = false;
@@ -515,12 +516,18 @@ static void explore_strings(FrameBase& f, const Gram& g, const ref::LR1& L, Ctx&
     long n_acc = 0, n_rej = 0;
     std::string acc_sample, rej_sample;
     const ref::StrSpace& sp = (lr1_clean && !table_equal && cfg.has("C01")) ? cx.deep : cx.sp;   // a wrong table widens the search for a string-level witness
-    const int nwords = cfg.has_input ? 1 : sp.count + (int)g_extra_words.size();
+    static std::vector<std::string> long_words[8];
+    std::vector<std::string>& lw = long_words[g.T < 8 ? g.T : 7];
+    if (cfg.long_words > 0 && lw.empty() && g.T < 7) {
+        for (int a = 0; a < g.T; ++a) { std::string run((size_t)cfg.long_words, char('a' + a)); lw.push_back(run); for (int b = 0; b < g.T; ++b) { lw.push_back(run + char('a' + b)); lw.push_back(std::string(1, char('a' + b)) + run + char('a' + b)); } }
+    }
+    const int nlong = cfg.long_words > 0 ? (int)lw.size() : 0;
+    const int nwords = cfg.has_input ? 1 : sp.count + (int)g_extra_words.size() + nlong;
     for (int id = 0; id < nwords; ++id) {
-        const std::string& w = cfg.has_input ? cfg.one_input : id < sp.count ? sp.str[id] : g_extra_words[id - sp.count];
+        const std::string& w = cfg.has_input ? cfg.one_input : id < sp.count ? sp.str[id] : id < sp.count + (int)g_extra_words.size() ? g_extra_words[id - sp.count] : lw[id - sp.count - (int)g_extra_words.size()];
         cur_input = w; cur_phase = "strings"; ++g_heartbeat;
         std::vector<ref::Tok> toks = tokens_of(w);
-        ref::Run ex = ref::drive(g, rt, toks, 400);
+        ref::Run ex = ref::drive(g, rt, toks, 400 + 40 * (int)w.size());
         if (ex.undefined || ex.horizon) { ctr["ref_no_verdict"]++; continue; }
         if (want_lang && !cfg.has_input && id < cx.sp.count && ex.ok != cx.lang.member(id)) {
             std::fprintf(stderr, "HARNESS ERROR: reference LR driver and CFG membership disagree on '%s' for %s\n", w.c_str(), g.text().c_str());
@@ -978,6 +985,7 @@ int main(int argc, char** argv) {
         else if (a == "--err") cfg.err = std::atoi(next().c_str());
         else if (a == "--custom") cfg.custom = std::atoi(next().c_str());
         else if (a == "--off") cfg.off = std::atoi(next().c_str());
+        else if (a == "--long-words") cfg.long_words = std::atoi(next().c_str());
         else if (a == "--noff") cfg.noff = std::atoi(next().c_str());
         else if (a == "--deadline") cfg.deadline = std::atof(next().c_str());
         else if (a == "--prec-levels") cfg.prec_levels = std::atoi(next().c_str());
